@@ -5,6 +5,8 @@ list/dict/str model; every precondition violation must raise and leave the conta
 """
 from hypothesis import strategies as st
 
+import os
+
 import hyp
 import vlib
 from hyp import Violation
@@ -173,6 +175,10 @@ def plan(st_, M):
     if op in ("v_resize", "v_resize2"):
         newn = max(0, min(n + 3, {"zero": 0, "last": n - 1, "size": n, "size1": n + 1}.get(st_["ix"], x % 7)))
         two = op == "v_resize2"
+        if two and newn > n:
+            # recorded known finding (resize(n, value) fills with handles to one shared, possibly const, object): growing with a fill value is
+            # excluded from generation and counted; the finding itself is replayed on every run (main)
+            return "EXCLUDED"
         M.v = v[:newn] + [x if two else None] * max(0, newn - n)
         M.drop_views("v")
         return ("v.resize(%d, %s)" % (newn, lit_int(x)) if two else "v.resize(%d)" % newn), None
@@ -397,6 +403,9 @@ def check(c, ctx):
         for k, st_ in enumerate(c["steps"]):
             sizes = {"v": len(M.v), "s": len(M.s)}
             pl = plan(st_, M)
+            if pl == "EXCLUDED":
+                ctx.classify("excluded_known_finding", "resize(n, value) growing the Vector")
+                continue
             if pl is None:
                 continue
             script, exp = pl
@@ -445,7 +454,18 @@ def main(tier):
     ev.cov["rule"] = RULE
     ev.assumptions = ["Python list/dict/str models of std::vector<Boxed_Value>, std::map<std::string,Boxed_Value>, std::string written from the C++ standard's "
                       "container semantics; resize(n) default-constructs undefined values; map operator[] inserts an undefined value",
-                      "range views are used only while their container is not structurally modified (modification during iteration is outside the property)"]
+                      "range views are used only while their container is not structurally modified (modification during iteration is outside the property)",
+                      "growing a Vector with resize(n, value) is a recorded known finding (all new elements and the argument are one object) and is excluded from generation"]
+    # recorded known finding, replayed on every run
+    for k in vlib.known_findings(PID):
+        if k["kind"] == "known" and k.get("sig") == "resize-fill-shares-one-object":
+            ctx = hyp.Ctx(0, tier)
+            eid = ctx.request({"cmd": "new", "opt": True})["id"]
+            r = ctx.request({"cmd": "eval", "id": eid, "script": open(os.path.join(vlib.VERIF, k["repro"])).read()})
+            ctx.close()
+            if "exc" not in r and "bool:true" in r["res"]["r"]:
+                vlib.print_known(PID, k["what"])
+            ev.count("known_findings_replayed")
     n = 640 if tier == "quick" else 12000
     failures = hyp.run("c12", ev, tier, n)
     confirmed = hyp.confirm("c12", failures, PID)
